@@ -293,6 +293,13 @@ def c09(res):
 
     outs = m4_render.run(res.tier)
     m4_render.classify(outs, res)
+    # node classes with their own __eq__ / truth value are trees, too ("for every tree")
+    rout = m4_render.run_adversarial(res.tier)
+    res.replayed += rout["n"]
+    for att in rout["attention"]:
+        res.violation({"property": "C09", "module": "render", "config": rout["config"]["name"], "family": att["family"],
+                       "why": "RenderTree of a tree of %s nodes differs from the definition: %s" % (att["family"], att["bad"][:1]),
+                       "par": att["par"], "ch": att["ch"], "query": att["query"], "observed": att["bad"]})
     res.rule = ("TLC enumerates every tree shape up to MaxN nodes, every start node, childiter in {list, reversed, sorted by key, filter(S) |S|<=2}, every maxlevel in {0..height+2, None} "
                 "and four line-count assignments (0-3 lines per node); the rows are the definition RowsDef (segments from 'has a following sibling'), proved equal to the transcribed "
                 "recursion by TLC (Thm_Rows) together with the decoding lemma. Each vector is rendered with 7 styles (4 built-in, widths 1 and 3, a style class) and lazy/eager childiter variants and compared with "
